@@ -81,6 +81,14 @@ def run_harness(package, args, profile="release", timeout=3600, env_extra=None, 
     for line in p.stdout.splitlines():
         if line.startswith("FVRESULT "):
             res = json.loads(line[len("FVRESULT "):])
+    if res is None and p.returncode in (-6, -11, -4, -7):
+        # SIGABRT / SIGSEGV / SIGILL / SIGBUS: the harness has no unsafe code of its own; the process was taken down by the
+        # code under test (stack exhaustion, abort). That is an observation about the code, not a tool failure.
+        tail = (p.stderr or "")[-400:].replace("\n", " | ")
+        res = {"evaluations": 0, "distinct": 0, "traces": 0, "samples": [], "extra": {"harness_process_died": 1},
+               "violations": [{"what": "the process running the code under test died with signal %d (stack exhaustion or abort) during: %s %s  [%s]"
+                                       % (-p.returncode, package, " ".join(str(a) for a in args)[:300], tail),
+                               "replay": {"kind": "process-death", "package": package, "args": [str(a) for a in args], "signal": -p.returncode}}]}
     if res is None:
         sys.stderr.write(p.stdout[-3000:])
         sys.stderr.write(p.stderr[-3000:])
